@@ -193,7 +193,7 @@ var c20Hist = core.Mon(c20, "history-replay", func(w *core.W, h *HistCase) {
 				w.Skip("formula-not-derivable")
 				return
 			}
-			sc, err := formula.ParseSourceCode([]byte(o.Src))
+			sc, err := hostParse([]byte(o.Src), true)
 			if err != nil {
 				bad(i, "unparsable", "parses", err.Error(), o.Src)
 				return
